@@ -331,6 +331,7 @@ func (t *htmlTemplate) processIfElse(node *Node, attr *Attr, tokenBuf *strings.B
 		if !p { // 如果前一个节点是 false 才要计算本节点
 			return t.evaluateCondition(node, attr, tokenBuf, data)
 		}
+		t.nodeCondition[node] = true // 前面已有分支满足条件 记录下来 使后续的 else-if/else 也不再输出
 	}
 	return nil
 }
